@@ -47,7 +47,7 @@ def plan(tier, seed):
         return {'n': 16000, 'deadline': 150,
                 'floor': {'call_with_8_extra_arguments': 1, 'distinct_nontrivial': 2000, 'b_call': 3000, 'b_once': 1500, 'b_findall': 1500,
                           'b_=': 1000, 'b_\\=': 500, 'goal_in_variable': 1500, 'failing_goal_once': 100}}
-    return {'n': 400000, 'deadline': 560,
+    return {'n': 450000, 'deadline': 560,
             'floor': {'call_with_8_extra_arguments': 1, 'distinct_nontrivial': 40000, 'b_call': 60000, 'b_once': 30000, 'b_findall': 30000,
                       'b_=': 20000, 'b_\\=': 10000, 'goal_in_variable': 30000, 'failing_goal_once': 2000}}
 
